@@ -65,7 +65,7 @@ LEVEL["C11"] = dict(technique=T, text="The contract state of the trace specifica
     "under the contract (AbyReg: buffered instances, one registry per key type, handles as clones) is model-checked: OneInstance, Aliasing, FlushDurable, "
     "Registered hold when every getter consults its registry and signatures are distinct; TLC must violate OneInstance when a getter skips the registry "
     "(MCReg_nolookup) - the class of two seeded changes; for every number of names, types, handles and instances the same invariants are PROVED inductive "
-    "with TLAPS (spec/proofs/AbyRegProofs.tla). In the code, the identity of the instance behind every handle is logged (hook) and all handles of a name must share it (C11.one_instance).", note=TRUST + " TLAPS 1.6 (SMT back end).")
+    "with TLAPS (spec/proofs/AbyRegProofs.tla). In the code, the identity of the instance behind every handle is logged (hook) and compared: a second instance behind a handle of an open map is reported as SPEC-DRIFT (design), the property itself is judged by what the handles observe.", note=TRUST + " TLAPS 1.6 (SMT back end).")
 LEVEL["C13"] = dict(technique=T, text="Contract: an open is accepted iff the three files carry the format signature and the signature of the requested key type; otherwise it must "
     "fail (error or panic) and the files stay byte-identical (C13.refused, C13.unchanged). All 20 ordered pairs of key types, files of another type swapped "
     "in for each of the three files, every one of the 16 signature bytes of each file mutated (quick: 4 values each, thorough: all 255), and foreign files "
